@@ -171,3 +171,93 @@ pub fn expected_reencode(input: &[u8], f: &Fields) -> Vec<u8> {
         _ => input.to_vec(),
     }
 }
+
+// ---------------------------------------------------------------------------
+// Independent encoder / accessors, so that client stubs and oracles do not
+// depend on the codec of the crate under test.
+
+impl Fields {
+    pub fn version(&self) -> u8 {
+        self.b0 >> 6
+    }
+    /// 0 CON, 1 NON, 2 ACK, 3 RST
+    pub fn mtype(&self) -> u8 {
+        (self.b0 >> 4) & 3
+    }
+    pub fn first_opt(&self, num: u32) -> Option<&Vec<u8>> {
+        self.opts.iter().find(|(n, _)| *n == num).map(|(_, v)| v)
+    }
+    pub fn opt_values(&self, num: u32) -> Vec<Vec<u8>> {
+        self.opts.iter().filter(|(n, _)| *n == num).map(|(_, v)| v.clone()).collect()
+    }
+    /// Block1 (27) / Block2 (23) value as (num, more, szx)
+    pub fn block(&self, num: u32) -> Option<(u32, bool, u8)> {
+        self.first_opt(num).and_then(|v| block_decode(v))
+    }
+}
+
+/// RFC 7959 2.2: 0-3 byte uint, NUM << 4 | M << 3 | SZX.
+pub fn block_decode(v: &[u8]) -> Option<(u32, bool, u8)> {
+    if v.len() > 3 {
+        return None;
+    }
+    let x = v.iter().fold(0u32, |a, b| (a << 8) | *b as u32);
+    Some((x >> 4, x & 8 != 0, (x & 7) as u8))
+}
+
+pub fn uint_bytes(x: u64) -> Vec<u8> {
+    let b = x.to_be_bytes();
+    let skip = b.iter().take_while(|z| **z == 0).count();
+    b[skip..].to_vec()
+}
+
+pub fn block_encode(num: u32, more: bool, szx: u8) -> Vec<u8> {
+    uint_bytes(((num as u64) << 4) | ((more as u64) << 3) | (szx as u64 & 7))
+}
+
+/// RFC 7252 section 3 serialisation.  `opts` in any order; options with equal
+/// numbers keep their relative order.
+pub fn encode(version: u8, mtype: u8, code: u8, mid: u16, token: &[u8], opts: &[(u32, Vec<u8>)], payload: &[u8]) -> Vec<u8> {
+    let mut out = Vec::with_capacity(4 + token.len() + payload.len() + 16);
+    out.push((version << 6) | ((mtype & 3) << 4) | (token.len() as u8 & 0x0F));
+    out.push(code);
+    out.push((mid >> 8) as u8);
+    out.push(mid as u8);
+    out.extend_from_slice(token);
+    let mut sorted: Vec<&(u32, Vec<u8>)> = opts.iter().collect();
+    sorted.sort_by_key(|(n, _)| *n);
+    let mut last = 0u32;
+    for (n, v) in sorted {
+        let delta = n - last;
+        last = *n;
+        let nib = |x: u32| -> (u8, Vec<u8>) {
+            if x <= 12 {
+                (x as u8, vec![])
+            } else if x < 269 {
+                (13, vec![(x - 13) as u8])
+            } else {
+                let e = x - 269;
+                (14, vec![(e >> 8) as u8, e as u8])
+            }
+        };
+        let (dn, de) = nib(delta);
+        let (ln, le) = nib(v.len() as u32);
+        out.push((dn << 4) | ln);
+        out.extend_from_slice(&de);
+        out.extend_from_slice(&le);
+        out.extend_from_slice(v);
+    }
+    if !payload.is_empty() {
+        out.push(0xFF);
+        out.extend_from_slice(payload);
+    }
+    out
+}
+
+/// Fields of a datagram the grammar does not forbid (None for must-reject).
+pub fn accept(buf: &[u8]) -> Option<Fields> {
+    match parse(buf).0 {
+        Verdict::MustReject(_) => None,
+        Verdict::Either(_, f) | Verdict::MustAccept(f) => Some(f),
+    }
+}
